@@ -1,13 +1,22 @@
 import SaphyrVerif.Spec.Expand
+import SaphyrVerif.Lemmas.C02_Doc
+import SaphyrVerif.Lemmas.C02_Misc
 /-!
 # C02 — anchors and aliases are transparent: an alias equals a copy of its anchor
 
 Theorems about the pump model (Model/Pump.lean = `LiveEvents::next_impl` with recording frames,
 inject stack, per-anchor / total / nesting limits) against the tree substitution `expand`
 (Spec/Expand.lean).  No budget here (budget rejections are C07/C08).
+
+Finding: `pump_eq_expand` and `pump_errors_classified` as originally stated are FALSE of the model: a
+folded block scalar at column 0 with non-blank text is rejected by the parser loop with `foldedIndent`
+(a syntax-level error independent of anchors), while `expand` succeeds.  They are kept as
+`pump_eq_expand_Full` / `pump_errors_classified_Full : Prop`, refuted by `*_counterexample`, and proved
+as `*_partial` with the visible extra hypothesis `noFoldedIndent t = true` (Lemmas/C02_Node.lean).
 -/
 namespace SaphyrVerif.Props.C02
 open SaphyrVerif SaphyrVerif.Scalars SaphyrVerif.Pump SaphyrVerif.Spec
+open SaphyrVerif.Lemmas.C02 (noFoldedIndent)
 
 def initPump (L : AliasLimits) : Pump := { limits := L }
 
@@ -16,22 +25,89 @@ def isLimitErr : PErr → Bool
   | .aliasExpansionLimit .. | .replayStackDepth .. | .replayLimit .. => true
   | _ => false
 
+theorem isLimitErr_eq : isLimitErr = Lemmas.C02.isLimit := by
+  funext e; cases e <;> rfl
+
 /-- more fuel never changes a finished run -/
 theorem pumpAll_fuel_mono (fuel k : Nat) (p : Pump) (inp : List RawItem) (acc : List Ev) (x)
-    (h : pumpAll fuel p inp acc = some x) : pumpAll (fuel + k) p inp acc = some x := by
-  sorry
+    (h : pumpAll fuel p inp acc = some x) : pumpAll (fuel + k) p inp acc = some x :=
+  Lemmas.C02.pumpAll_fuel_mono fuel k p inp acc x h
 
-/-- (T) pump_eq_expand: whenever the expansion exists and stays within the configured alias limits,
-the pump delivers exactly the expansion of the document (every alias replaced by a copy of the most
-recently completed node anchored under that id), for every document tree. -/
-theorem pump_eq_expand (L : AliasLimits) (t : LNode) (l0 l1 l2 l3 : Loc) (r : Exp)
+/-- (F) pump_eq_expand as originally stated (false: see `pump_eq_expand_counterexample`). -/
+def pump_eq_expand_Full : Prop :=
+  ∀ (L : AliasLimits) (t : LNode) (l0 l1 l2 l3 : Loc) (r : Exp),
+    expand [] [] t = .ok r →
+    1 ≤ L.maxReplayStackDepth →
+    r.replayed ≤ L.maxTotalReplayedEvents →
+    (∀ id, aliasCount id t ≤ L.maxAliasExpansionsPerAnchor) →
+    ∃ n, ∀ fuel, n ≤ fuel →
+      ∃ p', pumpAll fuel (initPump L) (docStream t l0 l1 l2 l3) [] = some (r.evs, none, p')
+
+/-- the witness: a folded scalar `>` at column 0 with text `x`, no anchors, no aliases -/
+def foldedCex : LNode := .scalar ['x'] .folded 0 none 1
+
+def foldedCexL : AliasLimits :=
+  { maxTotalReplayedEvents := 10, maxReplayStackDepth := 10, maxAliasExpansionsPerAnchor := 10 }
+
+/-- the run on the witness: no event, then `foldedIndent` -/
+theorem foldedCex_run :
+    (pumpAll 5 (initPump foldedCexL) (docStream foldedCex 1 2 3 4) []).map (fun x => (x.1, x.2.1)) =
+      some ([], some (.foldedIndent 1)) := by decide
+
+theorem foldedCex_expand :
+    expand [] [] foldedCex = .ok ⟨[.scalar ['x'] 0 none .folded 0 1], [], 0⟩ := by
+  simp [foldedCex, expand, scalarEv, normStyle, tagCode]
+
+theorem foldedCex_run' : ∃ q, pumpAll 5 (initPump foldedCexL) (docStream foldedCex 1 2 3 4) [] =
+    some ([], some (.foldedIndent 1), q) := by
+  have h := foldedCex_run
+  cases hx : pumpAll 5 (initPump foldedCexL) (docStream foldedCex 1 2 3 4) [] with
+  | none => rw [hx] at h; cases h
+  | some x =>
+    obtain ⟨a, b, q⟩ := x
+    rw [hx] at h
+    simp only [Option.map_some, Option.some.injEq, Prod.mk.injEq] at h
+    exact ⟨q, by rw [h.1, h.2]⟩
+
+/-- (F) counterexample to `pump_eq_expand_Full`: the expansion exists, all limits are generous, and
+the pump stops with `foldedIndent`. -/
+theorem pump_eq_expand_counterexample : ¬ pump_eq_expand_Full := by
+  intro h
+  obtain ⟨n, hn⟩ := h foldedCexL foldedCex 1 2 3 4 _ foldedCex_expand (by decide) (by decide)
+    (by intro id; simp [foldedCex, aliasCount])
+  obtain ⟨p', hp⟩ := hn (5 + n) (by omega)
+  obtain ⟨q, hq⟩ := foldedCex_run'
+  have := pumpAll_fuel_mono 5 n _ _ _ _ hq
+  rw [this] at hp
+  simp at hp
+
+/-- (T) pump_eq_expand (partial: excludes folded scalars at column 0 with non-blank text): whenever
+the expansion exists and stays within the configured alias limits, the pump delivers exactly the
+expansion of the document (every alias replaced by a copy of the most recently completed node
+anchored under that id), for every document tree. -/
+theorem pump_eq_expand_partial (L : AliasLimits) (t : LNode) (l0 l1 l2 l3 : Loc) (r : Exp)
+    (hnf : noFoldedIndent t = true)
     (hexp : expand [] [] t = .ok r)
     (hL1 : 1 ≤ L.maxReplayStackDepth)
     (hL2 : r.replayed ≤ L.maxTotalReplayedEvents)
     (hL3 : ∀ id, aliasCount id t ≤ L.maxAliasExpansionsPerAnchor) :
     ∃ n, ∀ fuel, n ≤ fuel →
       ∃ p', pumpAll fuel (initPump L) (docStream t l0 l1 l2 l3) [] = some (r.evs, none, p') := by
-  sorry
+  have h := Lemmas.C02.doc_outcome L t l0 l1 l2 l3
+  rw [hexp] at h
+  simp only [Lemmas.C02.DocOutcome] at h
+  rcases h with ⟨p', he⟩ | ⟨es, err, q, _, _, _, hx⟩ | ⟨hf, _⟩
+  · refine ⟨r.evs.length + 1, fun fuel hf => ⟨p', ?_⟩⟩
+    obtain ⟨k, rfl⟩ := Nat.exists_eq_add_of_le hf
+    exact pumpAll_fuel_mono _ k _ _ _ _ (Lemmas.C02.pumpAll_ends he)
+  · exfalso
+    rcases hx with hx | hx | ⟨id, hx⟩
+    · omega
+    · omega
+    · have := hL3 id
+      have hx' : L.maxAliasExpansionsPerAnchor < aliasCount id t := hx
+      omega
+  · rw [hnf] at hf; cases hf
 
 /-- (T) soundness for ALL limits (`limits_only_reject` + `alias_unknown_is_error`): a run that ends
 without error delivered exactly the expansion — in particular an alias without a completed anchor can
@@ -39,26 +115,119 @@ never produce an event sequence that is accepted. -/
 theorem pump_sound (L : AliasLimits) (t : LNode) (l0 l1 l2 l3 : Loc) (fuel : Nat) (evs : List Ev) (p' : Pump)
     (h : pumpAll fuel (initPump L) (docStream t l0 l1 l2 l3) [] = some (evs, none, p')) :
     ∃ r, expand [] [] t = .ok r ∧ evs = r.evs := by
-  sorry
+  have ho := Lemmas.C02.doc_outcome L t l0 l1 l2 l3
+  cases hexp : expand [] [] t with
+  | ok r =>
+    rw [hexp] at ho
+    simp only [Lemmas.C02.DocOutcome] at ho
+    rcases ho with ⟨q, he⟩ | ⟨es, err, q, hs, _⟩ | ⟨_, es, l, q, hs⟩
+    · have := Lemmas.C02.run_of_ends he h
+      exact ⟨r, rfl, (Prod.mk.inj this).1⟩
+    · have := Lemmas.C02.run_of_stops hs h
+      simp at this
+    · have := Lemmas.C02.run_of_stops hs h
+      simp at this
+  | error e =>
+    rw [hexp] at ho
+    simp only [Lemmas.C02.DocOutcome] at ho
+    rcases ho with ⟨es, q, hs⟩ | ⟨es, err, q, hs, _⟩ | ⟨_, es, l, q, hs⟩
+    all_goals
+      have := Lemmas.C02.run_of_stops hs h
+      simp at this
 
-/-- (T) every error of a run is either one of the three alias-limit errors, or it is the error the
-specification assigns to the document (unknown anchor / recursive reference at that alias);
-never a scan, budget or internal error, and the events delivered before it are a prefix of the
-expansion when the expansion exists. -/
-theorem pump_errors_classified (L : AliasLimits) (t : LNode) (l0 l1 l2 l3 : Loc) (fuel : Nat)
+/-- (T) classification of every error of a run, valid for ALL documents: an alias-limit error (after a
+prefix of the expansion), the error the specification assigns to the document, or the syntax-level
+`foldedIndent` rejection of a folded scalar at column 0 (only if the document contains one). -/
+theorem pump_errors_classified_general (L : AliasLimits) (t : LNode) (l0 l1 l2 l3 : Loc) (fuel : Nat)
     (evs : List Ev) (err : PErr) (p' : Pump)
     (h : pumpAll fuel (initPump L) (docStream t l0 l1 l2 l3) [] = some (evs, some err, p')) :
     (isLimitErr err = true ∧ ∀ r, expand [] [] t = .ok r → evs <+: r.evs) ∨
     (∃ l, expand [] [] t = .error (.unknown l) ∧ err = .unknownAnchor l) ∨
+    (∃ l, expand [] [] t = .error (.recursive l) ∧ err = .recursiveRef l) ∨
+    (∃ l, err = .foldedIndent l ∧ noFoldedIndent t = false) := by
+  have ho := Lemmas.C02.doc_outcome L t l0 l1 l2 l3
+  cases hexp : expand [] [] t with
+  | ok r =>
+    rw [hexp] at ho
+    simp only [Lemmas.C02.DocOutcome] at ho
+    rcases ho with ⟨q, he⟩ | ⟨es, err', q, hs, hl, hp, _⟩ | ⟨hf, es, l, q, hs⟩
+    · have := Lemmas.C02.run_of_ends he h
+      simp at this
+    · have := Lemmas.C02.run_of_stops hs h
+      simp only [Prod.mk.injEq, Option.some.injEq] at this
+      obtain ⟨rfl, rfl, _⟩ := this
+      refine Or.inl ⟨by rw [isLimitErr_eq]; exact hl, ?_⟩
+      intro r' hr'
+      cases hr'
+      exact hp
+    · have := Lemmas.C02.run_of_stops hs h
+      simp only [Prod.mk.injEq, Option.some.injEq] at this
+      obtain ⟨_, rfl, _⟩ := this
+      exact Or.inr (Or.inr (Or.inr ⟨l, rfl, hf⟩))
+  | error e =>
+    rw [hexp] at ho
+    simp only [Lemmas.C02.DocOutcome] at ho
+    rcases ho with ⟨es, q, hs⟩ | ⟨es, err', q, hs, hl, _⟩ | ⟨hf, es, l, q, hs⟩
+    · have := Lemmas.C02.run_of_stops hs h
+      simp only [Prod.mk.injEq, Option.some.injEq] at this
+      obtain ⟨_, rfl, _⟩ := this
+      cases e with
+      | unknown l => exact Or.inr (Or.inl ⟨l, rfl, rfl⟩)
+      | recursive l => exact Or.inr (Or.inr (Or.inl ⟨l, rfl, rfl⟩))
+    · have := Lemmas.C02.run_of_stops hs h
+      simp only [Prod.mk.injEq, Option.some.injEq] at this
+      obtain ⟨_, rfl, _⟩ := this
+      refine Or.inl ⟨by rw [isLimitErr_eq]; exact hl, ?_⟩
+      intro r' hr'
+      cases hr'
+    · have := Lemmas.C02.run_of_stops hs h
+      simp only [Prod.mk.injEq, Option.some.injEq] at this
+      obtain ⟨_, rfl, _⟩ := this
+      exact Or.inr (Or.inr (Or.inr ⟨l, rfl, hf⟩))
+
+/-- (F) pump_errors_classified as originally stated (false: see the counterexample below). -/
+def pump_errors_classified_Full : Prop :=
+  ∀ (L : AliasLimits) (t : LNode) (l0 l1 l2 l3 : Loc) (fuel : Nat) (evs : List Ev) (err : PErr) (p' : Pump),
+    pumpAll fuel (initPump L) (docStream t l0 l1 l2 l3) [] = some (evs, some err, p') →
+    (isLimitErr err = true ∧ ∀ r, expand [] [] t = .ok r → evs <+: r.evs) ∨
+    (∃ l, expand [] [] t = .error (.unknown l) ∧ err = .unknownAnchor l) ∨
+    (∃ l, expand [] [] t = .error (.recursive l) ∧ err = .recursiveRef l)
+
+/-- (F) counterexample to `pump_errors_classified_Full`: `foldedIndent` is none of the three kinds. -/
+theorem pump_errors_classified_counterexample : ¬ pump_errors_classified_Full := by
+  intro h
+  obtain ⟨q, hq⟩ := foldedCex_run'
+  rcases h foldedCexL foldedCex 1 2 3 4 5 [] _ q hq with ⟨hl, _⟩ | ⟨l, he, _⟩ | ⟨l, he, _⟩
+  · cases hl
+  · rw [foldedCex_expand] at he; cases he
+  · rw [foldedCex_expand] at he; cases he
+
+/-- (T) every error of a run (partial: excludes folded scalars at column 0 with non-blank text) is
+either one of the three alias-limit errors, or it is the error the specification assigns to the
+document (unknown anchor / recursive reference at that alias); never a scan, budget or internal
+error, and the events delivered before it are a prefix of the expansion when the expansion exists. -/
+theorem pump_errors_classified_partial (L : AliasLimits) (t : LNode) (l0 l1 l2 l3 : Loc) (fuel : Nat)
+    (evs : List Ev) (err : PErr) (p' : Pump)
+    (hnf : noFoldedIndent t = true)
+    (h : pumpAll fuel (initPump L) (docStream t l0 l1 l2 l3) [] = some (evs, some err, p')) :
+    (isLimitErr err = true ∧ ∀ r, expand [] [] t = .ok r → evs <+: r.evs) ∨
+    (∃ l, expand [] [] t = .error (.unknown l) ∧ err = .unknownAnchor l) ∨
     (∃ l, expand [] [] t = .error (.recursive l) ∧ err = .recursiveRef l) := by
-  sorry
+  rcases pump_errors_classified_general L t l0 l1 l2 l3 fuel evs err p' h with h1 | h2 | h3 | ⟨l, _, hf⟩
+  · exact Or.inl h1
+  · exact Or.inr (Or.inl h2)
+  · exact Or.inr (Or.inr h3)
+  · rw [hnf] at hf; cases hf
 
 /-- (T) alias_unknown_is_error, stated directly: if the specification says the document contains an alias
 with no completed anchor (or a recursive one), no run of the pump ends without error. -/
 theorem alias_unknown_is_error (L : AliasLimits) (t : LNode) (l0 l1 l2 l3 : Loc) (e : ExpErr)
     (hexp : expand [] [] t = .error e) (fuel : Nat) (evs : List Ev) (p' : Pump) :
     pumpAll fuel (initPump L) (docStream t l0 l1 l2 l3) [] ≠ some (evs, none, p') := by
-  sorry
+  intro h
+  obtain ⟨r, hr, _⟩ := pump_sound L t l0 l1 l2 l3 fuel evs p' h
+  rw [hexp] at hr
+  cases hr
 
 /-- (T) anchor_mark_transparent (partial: excludes anchored empty quoted scalars, see the finding
 below): erasing every anchor mark of an alias-free document changes the delivered events only by
@@ -66,8 +235,8 @@ erasing the ids. -/
 theorem anchor_mark_transparent_partial (t : LNode) (haf : aliasFree t = true)
     (hq : noAnchoredEmptyQuoted t = true) (σ σ' : Tab) (opn opn' : List Nat) (r r' : Exp)
     (h1 : expand σ opn t = .ok r) (h2 : expand σ' opn' (eraseAnchors t) = .ok r') :
-    r'.evs = r.evs.map Ev.eraseAnchor := by
-  sorry
+    r'.evs = r.evs.map Ev.eraseAnchor :=
+  Lemmas.C02.erase_node t haf hq σ σ' opn opn' r r' h1 h2
 
 /-- (F) the full statement "attaching an anchor never changes the node's own value" is false of the
 model and of the code: an anchored empty double-quoted scalar is delivered as a plain (null-like)
@@ -80,22 +249,46 @@ theorem anchored_empty_quoted_changes_value :
 /-- (T) inject_len_le_one: the replay stack never holds more than one frame (recorded buffers are
 alias-free), so `max_replay_stack_depth` only matters at 0. One-step invariant of `next_impl`. -/
 theorem inject_len_le_one (p : Pump) (inp : List RawItem) (h : p.inject.length ≤ 1) :
-    (nextImpl p inp).2.1.inject.length ≤ 1 := by
-  sorry
+    (nextImpl p inp).2.1.inject.length ≤ 1 :=
+  Lemmas.C02.nextImpl_inject p inp h
 
 /-- (T) events_peek_next_coherent: after `peek` returned an event, `next` returns that same event
 (never end of input, never a different event, never an error) and does not touch the parser input. -/
 theorem peek_next_coherent (p : Pump) (inp : List RawItem) (e : Ev) (p1 : Pump) (in1 : List RawItem)
     (h : peek p inp = (.event e, p1, in1)) :
     ∃ p2, next p1 in1 = (.event e, p2, in1) ∧ p2.look = none := by
-  sorry
+  unfold peek at h
+  cases hl : p.look with
+  | some ev =>
+    rw [hl] at h
+    simp only [Prod.mk.injEq, Step.event.injEq] at h
+    obtain ⟨rfl, rfl, rfl⟩ := h
+    simp [next]
+  | none =>
+    rw [hl] at h
+    rcases hn : nextImpl p inp with ⟨s, p', rest⟩
+    rw [hn] at h
+    cases s with
+    | event ev =>
+      simp only [Prod.mk.injEq, Step.event.injEq] at h
+      obtain ⟨rfl, rfl, rfl⟩ := h
+      simp [next]
+    | eof => simp at h
+    | error err => simp at h
 
 /-- (T) replayed events are copies of the definition's events: they keep the definition's anchor ids and
 locations (used by C14/C16). Stated on the specification: every event of an alias' expansion is an
 element of the stored buffer. -/
 theorem alias_expansion_is_buffer (σ : Tab) (opn : List Nat) (id : Nat) (loc : Loc) (r : Exp)
     (h : expand σ opn (.alias id loc) = .ok r) : lookupAnchor σ id = some r.evs ∧ r.tab = σ := by
-  sorry
+  simp only [expand] at h
+  split at h
+  · cases h
+  · split at h
+    · cases h
+    · rename_i buf hb
+      cases h
+      exact ⟨hb, rfl⟩
 
 -- (E) non-vacuity: a document with a re-defined anchor, an alias inside an anchored container and
 -- an alias to it; the hypotheses of `pump_eq_expand` are satisfiable and the pump really runs.
@@ -112,5 +305,21 @@ example : (pumpAll 100 (initPump { demoL with maxTotalReplayedEvents := 5 }) (do
     = some (some (.replayLimit 6 5 14)) := by decide
 example : (pumpAll 100 (initPump demoL) (docStream (.seq 1 none 1 3 [.alias 1 2]) 1 2 3 4) []).map (·.2.1)
     = some (some (.recursiveRef 2)) := by decide
+-- the extra hypothesis of the partial theorems holds for the demo document
+example : noFoldedIndent demo = true := by decide
+
+#print axioms pumpAll_fuel_mono
+#print axioms pump_eq_expand_partial
+#print axioms pump_eq_expand_counterexample
+#print axioms pump_sound
+#print axioms pump_errors_classified_general
+#print axioms pump_errors_classified_partial
+#print axioms pump_errors_classified_counterexample
+#print axioms alias_unknown_is_error
+#print axioms anchor_mark_transparent_partial
+#print axioms anchored_empty_quoted_changes_value
+#print axioms inject_len_le_one
+#print axioms peek_next_coherent
+#print axioms alias_expansion_is_buffer
 
 end SaphyrVerif.Props.C02
